@@ -205,6 +205,15 @@ func buildFaults(m *gen.Model, base *gen.Rendered, r *xrand.Rand) []fault {
 		{"type-without-name-jsight", "TYPE jsight\n{}\n"},
 		{"enum-without-name-with-annotation", "ENUM // an enum\n[1, 2]\n"},
 		{"server-without-name-with-annotation", "SERVER // a server\n  BaseUrl \"https://zz/\"\n"},
+		{"duplicate-tag-annotated-like-a-path", "TAG @dupTagP // /cats and everything below\nTAG @dupTagP\n"},
+		{"duplicate-tag-annotated-like-a-path-2", "TAG @dupTagQ // /\nTAG @dupTagQ // other\n"},
+		{"duplicate-type-annotated", "TYPE @dupTypeA any // @dupTypeA\nTYPE @dupTypeA any // /x\n"},
+		{"duplicate-server-annotated", "SERVER @dupSrvA // /srv\n  BaseUrl \"https://a/\"\nSERVER @dupSrvA\n  BaseUrl \"https://b/\"\n"},
+		{"second-request-body-regex", "POST /zzregexbody\n  Request\n    Body any\n    Body regex\n    /ab/\n  200 any\n"},
+		{"second-response-body-regex", "GET /zzregexresp\n  200\n    Body any\n    Body regex\n    /ab/\n"},
+		{"duplicate-enum-without-body-at-end-of-file", "ENUM @eofEnum\n[1, 2]\nENUM @eofEnum"},
+		{"enum-without-name-and-body-at-end-of-file", "ENUM"},
+		{"enum-without-body-at-end-of-file", "ENUM @eofEnumOnly"},
 		{"second-Title-after-empty-Title", "MACRO @unusedInfoM\n(\n  TYPE @uim any\n)\n"}, // placeholder replaced below when there is no INFO
 	} {
 		if sn[0] == "second-Title-after-empty-Title" {
